@@ -25,7 +25,7 @@ pub struct C08Case {
     pub devices: Vec<DevKnobs>,
     pub ngroups: u8,
     pub assign: Vec<u8>,
-    /// MAX_PDI of every group: 8, 32, 128 or 1024
+    /// MAX_PDI of every group: 8, 32, 128, 1024, 8192 or 16384
     pub max_pdi: u16,
     pub to_op: bool,
     pub seed: u64,
@@ -48,7 +48,7 @@ pub fn c08_case() -> impl Strategy<Value = C08Case> {
                 n,
             ),
             prop_oneof![1 => Just(vec![0u8; n]), 2 => prop::collection::vec(0u8..ngroups, n)],
-            prop::sample::select(vec![8u16, 32, 128, 1024, 1024]),
+            prop::sample::select(vec![8u16, 32, 128, 1024, 1024, 8192, 16384]),
             any::<bool>(),
             any::<u64>(),
             prop::bool::weighted(0.12),
@@ -92,7 +92,7 @@ pub fn c08_case() -> impl Strategy<Value = C08Case> {
     })
 }
 
-pub const C08_RULE: &str = "case = (1..16 generated devices, each with 0..3 sync managers per direction of 1..3 PDOs of 1..4 entries of 1..64 bits, with CoE (PDO assignment and mapping read over SDO) or without (EEPROM PDO categories), with/without FMMU_EX, oversampling factors 2..8 on selected PDOs, sync managers of a direction physically adjacent or each in its own buffer area, lenient or strict devices (strict: only the FMMUs / sync managers the SII declares exist and SAFE-OP is refused unless the sync managers are programmed as the device expects); 1..3 groups with MAX_PDI in {8,32,128,1024}; SAFE-OP or OP; then the marking experiment: distinct random patterns in every output window and every device's input memory, one cycle); non-trivial = >= 2 devices with bit lengths that are not byte multiples, or a device with >= 2 sync managers in one direction, or >= 2 groups used, or a group that exceeds MAX_PDI; distinct by hash of the case";
+pub const C08_RULE: &str = "case = (1..16 generated devices, each with 0..3 sync managers per direction of 1..3 PDOs of 1..4 entries of 1..64 bits, with CoE (PDO assignment and mapping read over SDO) or without (EEPROM PDO categories), with/without FMMU_EX, oversampling factors 2..8 on selected PDOs, sync managers of a direction physically adjacent or each in its own buffer area, lenient or strict devices (strict: only the FMMUs / sync managers the SII declares exist and SAFE-OP is refused unless the sync managers are programmed as the device expects); 1..3 groups with MAX_PDI in {8,32,128,1024,8192,16384}; SAFE-OP or OP; then the marking experiment: distinct random patterns in every output window and every device's input memory, one cycle); non-trivial = >= 2 devices with bit lengths that are not byte multiples, or a device with >= 2 sync managers in one direction, or >= 2 groups used, or a group that exceeds MAX_PDI; distinct by hash of the case";
 
 #[derive(Default)]
 pub struct GP<const P: usize> {
@@ -354,6 +354,8 @@ pub fn run_c08(case: &C08Case, info: &mut CaseInfo) -> Result<(), Fail> {
                 8 => c08_body::<8>(md, &net2, &c, &m2).await,
                 32 => c08_body::<32>(md, &net2, &c, &m2).await,
                 128 => c08_body::<128>(md, &net2, &c, &m2).await,
+                8192 => c08_body::<8192>(md, &net2, &c, &m2).await,
+                16384 => c08_body::<16384>(md, &net2, &c, &m2).await,
                 _ => c08_body::<1024>(md, &net2, &c, &m2).await,
             }
         })
